@@ -4,11 +4,13 @@ pub mod codec;
 pub mod comp;
 pub mod gen;
 pub mod guard;
+pub mod http;
 pub mod model;
 pub mod mon;
 pub mod mvtsrc;
 pub mod pipe;
 pub mod report;
 pub mod rng;
+pub mod server;
 pub mod shard;
 pub mod sources;
